@@ -234,3 +234,10 @@ def run(ctx, rep) -> None:
     rep.attempt("adagrad_arithmetic", adagrad_arithmetic, ctx, rep, "C02.5")
     rep.attempt("step_arithmetic", step_arithmetic, ctx, rep, "C02.5")
     rep.assume("equality of trajectories with torch.optim.* is implied only up to floating-point evaluation order: C02.5 proves the formulas equal as rational functions, not the rounding")
+    from .c01 import _step_counter
+    from .c03 import _Proxy
+    from .c16 import in_place_loading
+
+    rep.rule("C02.10", "the step count the phase switch and the bias corrections read is the number of group steps taken: a counted step runs the group step; restoring a checkpoint copies into the tensors the step reads (the counter included), never replaces them")
+    rep.attempt("_step_counter", _step_counter, ctx, _Proxy(rep, "C01.4", "C02.10"))
+    rep.attempt("in_place_loading", in_place_loading, ctx, rep, "C02.10")
